@@ -54,11 +54,23 @@ package merklearray
 //
 // Unexported identifiers used: none besides the package's exported API.
 //
-// Mutants (bin/mut C37 ... --only): see the report at the end of the file header of the
-// check registration; M1 right sibling hashed as left (`if pos&1 == 0` -> `if true`),
-// M2 leftover hints ignored (`len(s.hints) > 0 || len(pl) > 1` -> `len(pl) > 1`),
-// M3 inspectRoot not checking pos == 0, M4 vector-commitment index conversion with the
-// wrong depth.
+// GENUINE FINDING on the unchanged tree (known_findings.jsonl, findings/C37-treedepth-unchecked):
+// TreeDepth +-1 mutations are accepted (verifyPath never checks the depth; the DESIGN
+// mutant "Verify not checking TreeDepth" is therefore the shipped behaviour). Keys
+// C37:treedepth+1/plain, C37:treedepth-1/plain, C37:treedepth+1/vc, C37:treedepth-1/vc.
+//
+// Mutants (bin/mut C37 <file> ..., run both on the unchanged code with the four known keys
+// listed and on a scratch worktree carrying findings/C37-treedepth-unchecked/
+// candidate-fix.patch; all DETECTED, each by a different mutation kind):
+//   M1 partial.go: right sibling hashed as left (`if pos&1 == 0 || true`)
+//        -> complete-verify (honest proofs for odd positions rejected)
+//   M2 merkle.go inspectRoot: only a 16-byte prefix of the root compared -> root-flip
+//   M3 vectorCommitmentArray.go: padding leaves are copies of the last element instead of
+//      the domain-separated bottom leaf -> pos-move/vc (needs n not a power of two and the
+//      last element in S)
+//   M4 merkle.go verifyPath: hints left over after TreeDepth levels are ignored
+//        -> path-dup (last digest duplicated)
+//   M0 (the finding itself) merkle.go without the depth check -> treedepth+-1
 
 import (
 	"bytes"
@@ -309,14 +321,31 @@ func c37case(r *ve.Run, st *c37stats, tr *c37tree, mask uint) {
 			dup = append(dup, path[i+1:]...)
 			try("path-dup", fmt.Sprint(i), mustReject, tr.root, elems, withPath(dup))
 		}
-		// tree depth (X1: not for S = {})
+		// tree depth (X1: not for S = {}).
+		// KNOWN FINDING (findings/C37-treedepth-unchecked): verifyPath never compares the
+		// number of climbed levels with TreeDepth, so a depth-mutated honest proof is
+		// accepted exactly when the field's two remaining uses do not object:
+		//   plain: +1 always; -1 iff every position < 2^(depth-1) (hashLeaves bound);
+		//   vc:    +-1 iff S == {0} (the only position whose bit reversal is the same
+		//          under both widths).
+		// Acceptances explained by that are reported under C37:treedepth{+1,-1}/{plain,vc}
+		// (listed in known_findings.jsonl); an acceptance it does NOT explain gets the
+		// separate key C37:treedepth{+1,-1}-unexplained/... and always fails the check.
+		explainedVC := len(S) == 1 && S[0] == 0
+		kindUp, kindDown := "treedepth+1", "treedepth-1"
+		if tr.vc && !explainedVC {
+			kindUp, kindDown = "treedepth+1-unexplained", "treedepth-1-unexplained"
+		}
+		if !tr.vc && proof.TreeDepth > 0 && S[len(S)-1] >= uint64(1)<<(proof.TreeDepth-1) {
+			kindDown = "treedepth-1-unexplained"
+		}
 		pd := withPath(proof.Path)
 		pd.TreeDepth = proof.TreeDepth + 1
-		try("treedepth+1", "", mustReject, tr.root, elems, pd)
+		try(kindUp, "", mustReject, tr.root, elems, pd)
 		if proof.TreeDepth > 0 {
 			pd = withPath(proof.Path)
 			pd.TreeDepth = proof.TreeDepth - 1
-			try("treedepth-1", "", mustReject, tr.root, elems, pd)
+			try(kindDown, "", mustReject, tr.root, elems, pd)
 		}
 		// elements
 		for _, p := range S {
